@@ -758,6 +758,45 @@ func convertStream(w *World, seed uint64, n int, out io.Writer) int {
 			}
 		}
 	}()
+	// a PoS-style genesis: an ordinary account holds a delegation to a genesis validator.  Holding a delegation gives no
+	// authority over the validator: RemoveValidator from the delegator (neither the admin nor the validator's operator) is
+	// refused and nothing moves; the operator's own removal still works.
+	func() {
+		defer func() {
+			if e := recover(); e != nil {
+				bad++
+				fmt.Fprintf(out, "CONVBAD delegator probe panicked: %v\n", e)
+			}
+		}()
+		gen6 := gen
+		gen6.ForeignDel = true
+		gen6.Vals = []GVal{{0, 0, 5_000_000}, {1, 1, 7_000_000}, {2, 2, 6_000_000}}
+		node6, _, err := NewNode(w, gen6)
+		if err != nil {
+			bad++
+			fmt.Fprintf(out, "CONVBAD delegator probe: genesis %v\n", err)
+			return
+		}
+		defer node6.Close()
+		node6.ExecBlock(Block{DtNs: 1_000_000_000}, nil)
+		node6.ExecBlock(Block{DtNs: 1_000_000_000}, nil)
+		before, _ := node6.App.StakingKeeper.GetValidator(node6.Ctx(), w.Ops[0].Val)
+		o := node6.ExecBlock(Block{DtNs: 1_000_000_000, Txs: []Tx{{Signer: -2, Msgs: []Msg{{Kind: "REMOVE", Args: []string{"0"}}}}}}, nil)
+		after, _ := node6.App.StakingKeeper.GetValidator(node6.Ctx(), w.Ops[0].Val)
+		if len(o.Txs) != 1 || o.Txs[0].Code == 0 {
+			bad++
+			fmt.Fprintf(out, "CONVBAD RemoveValidator sent by a mere delegator of the validator was accepted\n")
+		}
+		if !before.Tokens.Equal(after.Tokens) || len(o.Updates) != 0 {
+			bad++
+			fmt.Fprintf(out, "CONVBAD refused RemoveValidator of a delegator moved the validator: tokens %s -> %s, %d updates\n", before.Tokens, after.Tokens, len(o.Updates))
+		}
+		o2 := node6.ExecBlock(Block{DtNs: 1_000_000_000, Txs: []Tx{{Signer: 1, Msgs: []Msg{{Kind: "REMOVE", Args: []string{"1"}}}}}}, nil)
+		if len(o2.Txs) != 1 || o2.Txs[0].Code != 0 {
+			bad++
+			fmt.Fprintf(out, "CONVBAD the operator's own RemoveValidator was refused on a genesis with a foreign delegation\n")
+		}
+	}()
 	fmt.Fprintf(out, "CONV records=%d bad=%d\n", n, bad)
 	return bad
 }
